@@ -7,13 +7,13 @@ Model: `modesChecksum` (Model/Decode/Checksum.lean, over the table regenerated f
 every run) and `Message.tryFrom` / `decodeBuf` / `df` (Model/Decode/Message.lean).
 Spec: Spec/Crc.lean — bit-serial long division by the 25-bit generator 0x1FFF409, written
 from the standard.  Helper lemmas: Proofs/Crc.lean (algebra), Proofs/CrcModel.lean (the
-table-driven loop), Proofs/CrcGate.lean (gate and `icao24`).
+table-driven loop), Proofs/CrcGate.lean (the checksum gate), Proofs/CrcIcao.lean (`icao24`).
 
 Every statement quantifies over *all* inputs of its domain (induction over the byte/bit
 list, XOR-linearity of the division); the only enumerations are the 256 table rows, the
 256 values of the byte shifted out of the register, and the 111 distances of a double error.
 -/
-import Rs1090.Proofs.CrcGate
+import Rs1090.Proofs.CrcIcao
 namespace Rs1090.Props.C02
 open Rs1090 Rs1090.Spec.Crc Rs1090.Model Rs1090.Model.Message Rs1090.Proofs.Crc
 
